@@ -1,1 +1,182 @@
-(* placeholder: being written *)
+(* PART D — the machine theorems *)
+From Coq Require Import List ZArith NArith Bool Lia Arith.
+From SC Require Import Model.Val Model.Plain Model.Ops Model.Valid Model.Class Model.Tree Model.Machine.
+From SC Require Import Proofs.TreeDefs Proofs.TreeLemmas Proofs.MachineDefs.
+From SC Require Import Proofs.MRIds Proofs.MROps Proofs.MRPath Proofs.MRUpd.
+Import ListNotations.
+
+(* ---------- facts from the class table and the invariant ---------- *)
+Lemma table_cls_ok T c :
+  table_ok T = true -> c < length T ->
+  backend_has_both T (backend_of T c) = true
+  /\ uniform_backend T (backend_of T c) (lang_of T c) = true
+  /\ in_backend T (backend_of T c) c = true.
+Proof.
+  intros HT Hc. unfold table_ok in HT. rewrite forallb_forall in HT.
+  assert (Hin : In (get_cls T c) T) by (apply nth_In; exact Hc).
+  specialize (HT _ Hin). unfold cls_ok in HT. apply andb_true_iff in HT. destruct HT as [HT _].
+  apply andb_true_iff in HT. destruct HT as [H1 H2].
+  split; [exact H1|]. split; [exact H2|]. apply in_backend_spec. split; [exact Hc|reflexivity].
+Qed.
+
+Lemma load_ok T s oid ob c :
+  table_ok T = true -> Inv T s -> res_valid T s ->
+  nlookup oid (m_objs s) = Some ob -> nlookup (o_rid ob) (m_res s) = Some c ->
+  exists root1 nx1,
+    load_root T s ob = (root1, nx1, None)
+    /\ VEq (to_base root1) c
+    /\ node_in_backend T (backend_of T (o_cls ob)) root1
+    /\ node_keys_unique root1 = true
+    /\ node_id root1 = node_id (o_root ob)
+    /\ NoDup (node_ids root1)
+    /\ (forall p m, node_at p (o_root ob) = Some m -> same_kinds_along p (o_root ob) c ->
+          exists m', node_at p root1 = Some m' /\ node_id m' = node_id m).
+Proof.
+  intros HT HI HR Hob Hc.
+  pose proof (HI oid ob Hob) as I. destruct (HR oid ob c Hob Hc) as [Vok [Vwf Vk]].
+  destruct (table_cls_ok T (o_cls ob) HT (oi_cls _ _ _ I)) as [HB [HU Hin]].
+  unfold load_root. rewrite Hc.
+  destruct (upd_correct T _ _ c (o_root ob) (m_next s) HB HU (oi_backend _ _ _ I)
+              (oi_container _ _ _ I) (eq_sym Vk) Vok Vwf (oi_keys _ _ _ I))
+    as [root1 [nx1 [E [A1 [A2 [A3 [A4 [A5 A6]]]]]]]].
+  exists root1, nx1. split; [exact E|]. split; [exact A1|]. split; [exact A2|].
+  split; [exact A3|]. split; [exact A4|]. split.
+  - destruct (upd_ids_r T c (o_root ob) (m_next s) root1 nx1 None E
+                (oi_below _ _ _ I) (oi_nodup _ _ _ I)) as [N _]. exact N.
+  - eapply upd_keeps_handles; eauto. exact (oi_backend _ _ _ I). exact (oi_keys _ _ _ I).
+Qed.
+
+(* ---------- the argument checks done before anything else ---------- *)
+Definition reset_kind_ok (o : nop) : Prop :=
+  match o with
+  | OL (LReset v) => kind_of v = KList
+  | OD (DReset v) => kind_of v = KDict
+  | _ => True
+  end.
+
+Lemma pre_nop_pass T n o : pre_nop T n o = Some None -> reset_kind_ok o.
+Proof.
+  destruct n as [v0|id c l|id c d], o as [lo|dop]; cbn [pre_nop]; intros H; try discriminate.
+  - destruct lo; cbn [reset_kind_ok]; auto. cbn [pre_lop] in H. destruct v; try discriminate. reflexivity.
+  - destruct dop; cbn [reset_kind_ok]; auto. cbn [pre_dop] in H. destruct v; try discriminate. reflexivity.
+Qed.
+
+Lemma args1 L v : (val_ok L v && wf_val v) && true = true -> val_ok L v = true /\ wf_val v = true.
+Proof. rewrite andb_true_r. apply andb_true_iff. Qed.
+
+Lemma validate_args T c L v :
+  lang3 (validators_of T c) = L -> val_ok L v = true -> validate (validators_of T c) v = None.
+Proof. intros HL H. apply validate_spec. rewrite HL. exact H. Qed.
+
+Lemma pre_nop_reject T c0 n o e L :
+  node_cls n = Some c0 -> lang3 (validators_of T c0) = L ->
+  args_ok L o = true -> pre_nop T n o = Some (Some e) ->
+  forall v r' new, plain_nop v o = Some (r', new) -> r' = Err e /\ new = v.
+Proof.
+  intros Hc HL Ha Hp v r' new Hv.
+  destruct n as [v0|id c l|id c d]; cbn in Hc; try discriminate; inversion Hc; subst c;
+    destruct o as [lo|dop]; cbn [pre_nop] in Hp; try discriminate; inversion Hp as [Hp']; clear Hp;
+    destruct v as [sv|lv|dv]; cbn [plain_nop] in Hv; try discriminate.
+  - (* lists *)
+    unfold args_ok in Ha. cbn [nop_vals] in Ha.
+    destruct lo; cbn [pre_lop] in Hp'; try discriminate; cbn [lop_vals forallb] in Ha;
+      apply args1 in Ha; destruct Ha as [Vok Vwf];
+      try (rewrite (validate_args T c0 L _ HL Vok) in Hp'; discriminate).
+    + (* LExtend *)
+      destruct (iter_val v) as [vs|e0] eqn:Ei.
+      * rewrite (validate_args T c0 L (VL vs) HL) in Hp'; [discriminate|].
+        rewrite <- HL in *. eapply iter_val_ok; eauto.
+      * inversion Hp'; subst e0. cbn [plain_lop] in Hv. rewrite Ei in Hv. cbn [bind] in Hv.
+        inversion Hv; auto.
+    + (* LIAdd *)
+      destruct (iter_val v) as [vs|e0] eqn:Ei.
+      * rewrite (validate_args T c0 L (VL vs) HL) in Hp'; [discriminate|].
+        rewrite <- HL in *. eapply iter_val_ok; eauto.
+      * inversion Hp'; subst e0. cbn [plain_lop] in Hv. rewrite Ei in Hv. cbn [bind] in Hv.
+        inversion Hv; auto.
+    + (* LReset *)
+      destruct v; try discriminate; inversion Hp'; subst e; cbn [plain_lop] in Hv; inversion Hv; auto.
+  - (* dicts *)
+    unfold args_ok in Ha. cbn [nop_vals] in Ha.
+    destruct dop; cbn [pre_dop] in Hp'; try discriminate; cbn [dop_vals forallb] in Ha;
+      apply args1 in Ha; destruct Ha as [Vok Vwf];
+      try (rewrite (validate_args T c0 L _ HL Vok) in Hp'; discriminate).
+    + (* DUpdate *)
+      destruct (as_mapping v) as [od|e0] eqn:Em; [discriminate|]. inversion Hp'; subst e0.
+      cbn [plain_dop] in Hv. rewrite Em in Hv. inversion Hv; auto.
+    + (* DReset *)
+      destruct v; try discriminate; inversion Hp'; subst e; cbn [plain_dop] in Hv; inversion Hv; auto.
+Qed.
+
+(* ---------- the body of an operation on a node of a clean tree ---------- *)
+Definition update_arg_ok (L : lang) (o : nop) : Prop :=
+  forall v od, o = OD (DUpdate v) -> as_mapping v = Ok od -> val_ok L (VD od) = true.
+
+Lemma in_nop_refines T b L n1 o nx r h n2 nx2 :
+  backend_has_both T b = true -> uniform_backend T b L = true ->
+  node_in_backend T b n1 -> node_keys_unique n1 = true ->
+  args_ok L o = true -> reset_kind_ok o -> update_arg_ok L o ->
+  in_nop T n1 o nx = Some ((r, h), n2, nx2) ->
+  exists c', plain_nop (to_base n1) o = Some (r, c') /\ VEq (to_base n2) c'
+             /\ (nop_merges o = false -> to_base n2 = c').
+Proof.
+  intros HB HU Hn Hku Ha Hrk Hup H.
+  destruct n1 as [v0|id c l|id c d], o as [lo|dop]; cbn [in_nop] in H; try discriminate;
+    inversion H as [H1]; clear H.
+  - (* list node *)
+    assert (Hcase : (exists v, lo = LReset v) \/ match lo with LReset _ => False | _ => True end)
+      by (destruct lo; eauto).
+    destruct Hcase as [[v ->]|Hcase].
+    + cbn [reset_kind_ok] in Hrk. unfold args_ok in Ha. cbn [nop_vals lop_vals forallb] in Ha.
+      apply args1 in Ha. destruct Ha as [Vok Vwf].
+      destruct (upd_correct T b L v (NL id c l) nx HB HU Hn eq_refl (eq_sym Hrk) Vok Vwf Hku)
+        as [n' [nx' [E [A1 _]]]].
+      cbn [in_lop] in H1. rewrite E in H1. inversion H1; subst.
+      destruct v as [sv|lv|dv]; try discriminate.
+      exists (VL lv). cbn [to_base plain_nop plain_lop]. split; [reflexivity|].
+      split; [exact A1|]. intros Hm; discriminate.
+    + pose proof (in_lop_refines_plain T id c l lo nx Hcase) as R. rewrite H1 in R.
+      cbn [to_base plain_nop].
+      destruct (plain_lop (map to_base l) lo) as [r0 l0]. cbn [fst snd] in R. destruct R as [R1 R2].
+      subst r0. exists (VL l0). split; [reflexivity|]. rewrite R2. split; [apply VEq_refl|auto].
+  - (* dict node *)
+    apply nib_ND in Hn. destruct Hn as [Hc Hnib].
+    pose proof Hku as Hku0.
+    cbn [node_keys_unique] in Hku. apply andb_true_iff in Hku. destruct Hku as [Hdu Hnku].
+    apply forallb_Forall' in Hnku.
+    assert (Hcase : (exists v, dop = DReset v) \/ (exists v, dop = DUpdate v)
+                    \/ match dop with DReset _ | DUpdate _ => False | _ => True end)
+      by (destruct dop; eauto).
+    destruct Hcase as [[v ->]|[[v ->]|Hcase]].
+    + cbn [reset_kind_ok] in Hrk. unfold args_ok in Ha. cbn [nop_vals dop_vals forallb] in Ha.
+      apply args1 in Ha. destruct Ha as [Vok Vwf].
+      assert (Hn : node_in_backend T b (ND id c d)) by (apply nib_ND; auto).
+      destruct (upd_correct T b L v (ND id c d) nx HB HU Hn eq_refl (eq_sym Hrk) Vok Vwf Hku0)
+        as [n' [nx' [E [A1 _]]]].
+      cbn [in_dop] in H1. rewrite E in H1. inversion H1; subst.
+      destruct v as [sv|lv|dv]; try discriminate.
+      exists (VD dv). cbn [to_base plain_nop plain_dop]. split; [reflexivity|].
+      split; [exact A1|]. intros Hm; discriminate.
+    + unfold args_ok in Ha. cbn [nop_vals dop_vals forallb] in Ha.
+      apply args1 in Ha. destruct Ha as [Vok Vwf].
+      cbn [in_dop] in H1. cbn [to_base plain_nop plain_dop].
+      destruct (as_mapping v) as [od|e0] eqn:Em.
+      * destruct (dupdate_ok T b L c d od nx HB HU Hc (Hup v od eq_refl Em)
+                    (as_mapping_wf v od Em Vwf) Hnib Hnku Hdu) as [d' [nx' [E V]]].
+        rewrite E in H1. inversion H1; subst.
+        eexists. split; [reflexivity|]. split; [exact V|]. intros Hm; discriminate.
+      * inversion H1; subst. eexists. split; [reflexivity|]. split; [apply VEq_refl|auto].
+    + assert (Hpre : match dop with
+                     | DReset _ | DUpdate _ => False
+                     | DSetdefault k v => validate (validators_of T c) (VD [(k, v)]) = None
+                     | _ => True end).
+      { destruct dop; try exact I; try contradiction.
+        unfold args_ok in Ha. cbn [nop_vals dop_vals forallb] in Ha.
+        apply args1 in Ha. destruct Ha as [Vok Vwf].
+        apply (validate_args T c L); [|exact Vok]. eapply uniform_lang; eauto. }
+      pose proof (in_dop_refines_plain T id c d dop nx Hpre) as R. rewrite H1 in R.
+      cbn [to_base plain_nop].
+      destruct (plain_dop (map (fun kn : key * node => (fst kn, to_base (snd kn))) d) dop) as [r0 d0].
+      cbn [fst snd] in R. destruct R as [R1 R2].
+      subst r0. exists (VD d0). split; [reflexivity|]. rewrite R2. split; [apply VEq_refl|auto].
+Qed.
